@@ -172,11 +172,11 @@ func (s *Sim) Judge(stranded []string) []Finding {
 			add("C26", "classification-mismatch", "call %d returned %v (%s): errRetryableOnNewConn=%v", c.idx, err, RetName[ret], rp)
 		}
 		if ret == RClosedRetryable {
-			if f.ackIdx >= 0 && f.unackedPoll >= 0 && f.ackIdx < f.unackedPoll {
-				add("C26", "acked-but-retryable", "call %d: ack delivered at trace index %d before the close branch polled at %d, yet Do returned the retryable engine-closed error", c.idx, f.ackIdx, f.unackedPoll)
+			if f.ackIdx >= 0 && f.leftLoop >= 0 && f.ackIdx < f.leftLoop {
+				add("C26", "acked-but-retryable", "call %d: ack delivered at trace index %d before the call left the retry loop at %d, yet Do returned the retryable engine-closed error", c.idx, f.ackIdx, f.leftLoop)
 			}
-			if f.rclosedIdx >= 0 && f.unackedPoll >= 0 && f.rclosedIdx < f.unackedPoll {
-				add("C26", "result-delivered-but-retryable", "call %d (msg id %d): its result handler completed at trace index %d before the close branch of the retry loop polled at %d, yet Do returned the retryable engine-closed error (a retry re-executes the request)", c.idx, c.plan.ID, f.rclosedIdx, f.unackedPoll)
+			if f.rclosedIdx >= 0 && f.leftLoop >= 0 && f.rclosedIdx < f.leftLoop {
+				add("C26", "result-delivered-but-retryable", "call %d (msg id %d): its result handler completed at trace index %d before the call left the retry loop at %d (close branch), yet Do returned the retryable engine-closed error (a retry re-executes the request)", c.idx, c.plan.ID, f.rclosedIdx, f.leftLoop)
 			}
 		}
 		if s.Stepped && ret == RClosedAcked && f.ackIdx < 0 && f.rclosedIdx < 0 && !c.ucancel && !f.sendCanceled {
